@@ -22,7 +22,8 @@ def prelude_check():
     p = run([os.path.join(ROOT, 'bin/govc'), 'prelude'])
     f = os.path.join(SCRATCH, 'prelude.smt2')
     os.makedirs(SCRATCH, exist_ok=True)
-    open(f, 'w').write(p.stdout)
+    probes = open(os.path.join(ROOT, 'selftest/prelude_probes.smt2')).read()
+    open(f, 'w').write(p.stdout.replace('(check-sat)\n', '') + probes)
     for s, argv in (('z3-new', ['z3-new', '-T:20', f]), ('z3', ['z3', '-T:20', f]), ('cvc5', ['cvc5', '--tlimit=20000', f])):
         out = run(argv).stdout.strip().split('\n')[0]
         print('prelude %-7s %s' % (s, out))
